@@ -476,6 +476,22 @@ func freshBase(v ssa.Value) bool {
 		return true
 	case *ssa.UnOp:
 		if x.Op == token.MUL {
+			// load of a pointer from a local variable: fresh only if everything ever stored in that
+			// variable is itself fresh (a spilled parameter is not)
+			if a, ok := x.X.(*ssa.Alloc); ok {
+				if _, isPtr := derefType(a.Type()).Underlying().(*types.Pointer); isPtr {
+					st := storesTo(a)
+					if len(st) == 0 {
+						return false
+					}
+					for _, sv := range st {
+						if !freshBase(sv) {
+							return false
+						}
+					}
+					return true
+				}
+			}
 			return freshBase(x.X)
 		}
 	case *ssa.FieldAddr:
